@@ -273,32 +273,88 @@ func runC07(r *Run) {
 			r.FailEdge(fn, "decode:trailing:"+shortErr(r.D.D(CallArgs(c)[1])), EdgeSpec{Name: "trailing-bytes", Atom: ordAtomR("len("+r.D.D(rest)+")", "0"), Bad: ">", Want: wantErr(true)})
 		}
 	}
+	// The function that issues the get-entries request (found by the path it
+	// fetches, wherever a refactor puts it) names the parameters start / end.
+	var fetcher *ssa.Function
+	var fetch ssa.CallInstruction
+	for _, fn := range r.P.ModFuncs {
+		if fnPkg(fn) == nil || ShortPkg(fnPkg(fn).Path()) != "client" {
+			continue
+		}
+		for _, c := range CallsTo(fn, "(*jsonclient.JSONClient).GetAndParse") {
+			if r.D.D(CallArgs(c)[2]) == `"/ct/v1/get-entries"` {
+				if fetcher != nil {
+					r.Fail("client.get-entries:one-fetcher", r.Where(c), "more than one function fetches /ct/v1/get-entries")
+				}
+				fetcher, fetch = fn, c
+			}
+		}
+	}
+	if fetcher == nil {
+		r.Fail("client.get-entries:fetcher", "-", "undecided: no function of package client fetches /ct/v1/get-entries")
+		return
+	}
+	r.Funcs[FuncName(fetcher)] = true
+	pStart, pEnd := -1, -1
+	eachInstr(fetcher, func(in ssa.Instruction) {
+		mu, ok := in.(*ssa.MapUpdate)
+		if !ok || r.D.D(mu.Map) != r.D.D(CallArgs(fetch)[3]) {
+			return
+		}
+		var idx int
+		if n, _ := fmt.Sscanf(r.D.D(mu.Value), "strconv.FormatInt(p%d, 10)", &idx); n != 1 {
+			r.Fail("client.get-entries:param-value", r.Where(mu), "parameter "+r.D.D(mu.Key)+" ← "+r.D.D(mu.Value)+" (not a decimal rendering of an argument)")
+			return
+		}
+		switch r.D.D(mu.Key) {
+		case `"start"`:
+			pStart = idx
+		case `"end"`:
+			pEnd = idx
+		default:
+			r.Fail("client.get-entries:param-name", r.Where(mu), "unexpected get-entries parameter "+r.D.D(mu.Key))
+		}
+	})
+	r.Check("client.get-entries:params", pStart >= 0 && pEnd >= 0 && pStart != pEnd, r.Where(fetch), fmt.Sprintf("start ← argument %d, end ← argument %d of %s", pStart, pEnd, FuncName(fetcher)))
+	r.ErrorsGate(fetcher, "client.get-entries:errors", "(*jsonclient.JSONClient).GetAndParse", 1)
+	// exported entry points hand their start / end to those arguments
+	for _, name := range []string{"(*client.LogClient).GetRawEntries", "(*client.LogClient).GetEntries"} {
+		fn := r.Fn(name)
+		if fn == nil {
+			continue
+		}
+		if fn == fetcher {
+			r.Check(short(name)+":forwards", pStart == 2 && pEnd == 3, r.FnPos(fn), "its own (start, end) arguments are the ones sent")
+			continue
+		}
+		cs := CallsTo(fn, FuncName(fetcher))
+		if len(cs) == 0 { // through GetRawEntries
+			cs = CallsTo(fn, "(*client.LogClient).GetRawEntries")
+		}
+		if len(cs) != 1 {
+			r.Fail(short(name)+":forwards", r.FnPos(fn), "undecided: does not reach the get-entries fetcher by one call")
+			continue
+		}
+		a := CallArgs(cs[0])
+		if cs[0].Common().StaticCallee() == fetcher {
+			r.Check(short(name)+":forwards", r.D.D(a[pStart]) == "p2" && r.D.D(a[pEnd]) == "p3", r.Where(cs[0]), fmt.Sprintf("passes (start=%s, end=%s)", r.D.D(a[pStart]), r.D.D(a[pEnd])))
+		} else {
+			r.Check(short(name)+":forwards", r.D.D(a[2]) == "p2" && r.D.D(a[3]) == "p3", r.Where(cs[0]), "passes (start, end) on")
+		}
+	}
 	if fn := r.Fn("(*client.LogClient).GetEntries"); fn != nil {
 		if c := r.OneCall(fn, "client.GetEntries:decode", "ct.LogEntryFromLeaf"); c != nil {
 			idx := r.D.Lin(CallArgs(c)[0], nil).String()
-			r.Check("client.GetEntries:index", idx == "+it@3 +p2 +1" || glob("+it@* +p2 +1", idx), r.Where(c), "entry i is decoded with index "+idx+" (start + i)")
-			// the entry decoded is element i of the reply
+			r.Check("client.GetEntries:index", glob("+it@* +p2 +1", idx) || glob("+p2 +φ* +1", idx) || glob("+φ* +p2 +1", idx), r.Where(c), "entry i is decoded with index "+idx+" (start + i)")
 			a := baseAlloc(CallArgs(c)[1])
 			ok := false
 			if a != nil {
 				for _, st := range r.StoresTo(fn, r.D.allocName(a)) {
-					ok = glob("(*client.LogClient).GetRawEntries(*)#0.Entries[(1 + it@*)]", r.D.D(st.Val))
+					ok = glob("(*client.LogClient).*etRawEntries(*)#0.Entries[(1 + it@*)]", r.D.D(st.Val))
 				}
 			}
 			r.Check("client.GetEntries:element", ok, r.Where(c), "the decoded entry is Entries[i] of the reply")
 		}
-		if c := r.OneCall(fn, "client.GetEntries:raw", "(*client.LogClient).GetRawEntries"); c != nil {
-			r.ExpectArg(c, "client.GetEntries:start", 2, "p2")
-			r.ExpectArg(c, "client.GetEntries:end", 3, "p3")
-		}
-	}
-	if fn := r.Fn("(*client.LogClient).GetRawEntries"); fn != nil {
-		r.ExpectMapEntry(fn, "client.GetRawEntries:start", "make:map[string]string", `"start"`, "strconv.FormatInt(p2, 10)")
-		r.ExpectMapEntry(fn, "client.GetRawEntries:end", "make:map[string]string", `"end"`, "strconv.FormatInt(p3, 10)")
-		if c := r.OneCall(fn, "client.GetRawEntries:get", "(*jsonclient.JSONClient).GetAndParse"); c != nil {
-			r.ExpectArg(c, "client.GetRawEntries:path", 2, `"/ct/v1/get-entries"`)
-		}
-		r.ErrorsGate(fn, "client.GetRawEntries:errors", "(*jsonclient.JSONClient).GetAndParse", 1)
 	}
 }
 
